@@ -88,6 +88,15 @@ def make_exc(flavour, what):
 def expand(spec):
     if spec["kind"] == "literal":
         return spec["data"]
+    if spec["kind"] == "magic":
+        # content that is itself an archive of one of the formats, or merely
+        # starts with its magic number
+        inner = hashlib.shake_256(b"c12m-%d" % spec["key"]).digest(
+            spec["size"])
+        if spec["full"]:
+            return stdlib_archive(spec["fmt"], "inner.bin", inner)
+        return {"gz": b"\x1f\x8b\x08", "bz2": b"BZh", "zip": b"PK\x03\x04",
+                "xz": b"\xfd7zXZ\x00"}[spec["fmt"]] + inner
     size, key = spec["size"], spec["key"]
     seed = b"c12-%d" % key
     if spec["mode"] == "random":
@@ -268,6 +277,11 @@ def check_case(case, ctx):
         ctx.label("large")
     if case["content"]["kind"] == "expand":
         ctx.label("content-" + case["content"]["mode"])
+    if case["content"]["kind"] == "magic":
+        ctx.label("content-is-an-archive" if case["content"]["full"]
+                  else "content-starts-with-a-magic-number")
+        if case["content"]["fmt"] == fmt:
+            ctx.label("content-looks-like-the-requested-format")
     ctx.nontrivial = len(content) >= 2 and bool(
         fmt or cf is not None or df is not None)
 
@@ -874,7 +888,13 @@ def names(draw, fmt, via):
 def contents(draw):
     which = draw(st.sampled_from(
         ["small", "small", "small", "empty", "one", "medium", "medium",
-         "expand", "expand", "expand", "expand", "large"]))
+         "expand", "expand", "expand", "expand", "large", "magic",
+         "magic"]))
+    if which == "magic":
+        return {"kind": "magic", "fmt": draw(st.sampled_from(FORMATS)),
+                "full": draw(st.booleans()),
+                "size": draw(st.integers(0, 300)),
+                "key": draw(st.integers(0, 2**32))}
     if which == "empty":
         return {"kind": "literal", "data": b""}
     if which == "one":
